@@ -274,7 +274,7 @@ def process_parenthetical(
             paren_balance -= 1
         if paren_balance < 0:  # End parenthetical reached
             return matched_parenthetical[:i] or None
-    if re.match(YEAR_REGEX, matched_parenthetical, flags=re.X):
+    if re.fullmatch(YEAR_REGEX, matched_parenthetical, flags=re.X):
         return None
     return matched_parenthetical or None
 
